@@ -276,6 +276,11 @@ func check(c Case) vrep.Result {
 	if nf := nestedFrom(c.Corpus); nf >= 0 && c.Hop >= nf {
 		// the faulted fetch is an author inside a post that loads fine: the post is built, the author is an error item
 		post, isPost := result.(*pub.Post)
+		if !isPost && c.Kind == "garble" {
+			// garbage inside the author's document may change what it says (its id, its type): a post whose author
+			// then lives elsewhere is refused as a whole - in time and without a crash is all that is required
+			return vrep.Result{Classes: append(classes, "may-region"), Nontrivial: true, May: true}
+		}
 		if !isPost {
 			return vrep.Result{Classes: classes, Err: fmt.Errorf("%s: the enclosing post was not built: %T", describe(c), result)}
 		}
